@@ -269,7 +269,9 @@ int verif_case(const uint8_t *tape, size_t tlen, Info *info) {
       if (b1 && (simh::opt_uint(b1->val) >> 4) > 0) { std::vector<uint8_t> k = b1->val; k.push_back(0xFF); k.insert(k.end(), m.payload.begin(), m.payload.end()); if (++seen[k] > 1) final_block_deliveries++; }
     }
     (void)all_408;
-    if (!cs.foreign_codes.empty() && final_block_deliveries && exclude_known(info, "stale-response-with-library-token-after-transfer-state-released")) { info->label("excluded:redelivered-final-block1"); goto teardown; }
+    // (the token surfaces in the response handler, or - when the stale 4.08 concluded the transfer while a later request of the same
+    // transfer was still queued and is given up afterwards - in the NACK handler)
+    if (final_block_deliveries && exclude_known(info, "stale-response-with-library-token-after-transfer-state-released")) { info->label("excluded:redelivered-final-block1"); goto teardown; }
   }
   if (cs.foreign_tokens) { info->fail("a client-side handler saw a token that the application never used (%d time(s)) - a token substituted by libcoap surfaced", cs.foreign_tokens); FAIL_IF(1); }
   // datagram sizes
@@ -365,10 +367,29 @@ int verif_case(const uint8_t *tape, size_t tlen, Info *info) {
       for (auto &p : v) { if (p.offset > at) return false; at = std::max(at, p.offset + p.len); }
       return at == total;
     };
+    // "tile it exactly": no gap and no byte handed over twice
+    auto tiles_exactly = [](std::vector<Piece> v, size_t total) {
+      std::sort(v.begin(), v.end(), [](const Piece &a, const Piece &b) { return a.offset < b.offset; });
+      size_t at = 0;
+      for (auto &p : v) { if (p.offset != at) return false; at = p.offset + p.len; }
+      return at == total;
+    };
     bool success = false, error = false;
     for (uint8_t c : tr.cli_codes) { if ((c >> 5) == 2 && c != 0x5f) success = true; if ((c >> 5) >= 4) error = true; }
     if (tr.kind != 1 && tr.srv_complete == 1 && !cs.srv_single && !tiles(tr.srv_pieces, tr.up.size())) { info->fail("%s: blocks handed to the server handler do not tile the body", id.c_str()); FAIL_IF(1); }
     if (tr.kind != 0 && tr.cli_complete == 1 && !cs.cli_single && !tiles(tr.cli_pieces, tr.down.size())) { info->fail("%s: blocks handed to the client handler do not tile the body", id.c_str()); FAIL_IF(1); }
+    if (tr.kind != 0 && tr.cli_complete == 1 && !cs.cli_single && down_blockwise && !tiles_exactly(tr.cli_pieces, tr.down.size())) {
+      if (request_redelivered && exclude_known(info, "redelivered-request-message-processed-again")) { info->label("excluded:request-redelivery(download piece twice)"); continue; }
+      std::string ps;
+      for (auto &p : tr.cli_pieces) ps += " [" + std::to_string(p.offset) + "+" + std::to_string(p.len) + ")";
+      info->fail("%s: blocks handed to the client handler cover the body but not exactly once:%s", id.c_str(), ps.c_str()); FAIL_IF(1);
+    }
+    if (tr.kind != 1 && tr.srv_complete == 1 && !cs.srv_single && up_blockwise && !tiles_exactly(tr.srv_pieces, tr.up.size())) {
+      if (request_redelivered && exclude_known(info, "redelivered-request-message-processed-again")) { info->label("excluded:request-redelivery(upload piece twice)"); continue; }
+      std::string ps;
+      for (auto &p : tr.srv_pieces) ps += " [" + std::to_string(p.offset) + "+" + std::to_string(p.len) + ")";
+      info->fail("%s: blocks handed to the server handler cover the body but not exactly once:%s", id.c_str(), ps.c_str()); FAIL_IF(1);
+    }
     if (!fault_hit && quiet && cs.tr.size() == 1 && !cs.refused) {
       if (tr.kind != 1 && tr.srv_complete != 1) { info->fail("%s: no datagram lost, request body delivered %d times", id.c_str(), tr.srv_complete); FAIL_IF(1); }
       if (tr.kind != 0 && tr.cli_complete != 1) { info->fail("%s: no datagram lost, response body delivered %d times", id.c_str(), tr.cli_complete); FAIL_IF(1); }
